@@ -79,7 +79,7 @@ func init() {
 	NewSpace(p, "bfs", c05Check)
 	NewSpace(p, "templates", c05Check)
 	p.Run = func(r *rep.Run, thorough bool) {
-		n, err := scriptref.Anchor("/repo/bscript/interpreter/data/script_tests.json")
+		n, err := scriptref.Anchor(vectorsDir() + "/script_tests.json")
 		if err != nil {
 			r.HarnessError("script reference failed its anchor: " + err.Error())
 			return
